@@ -27,25 +27,22 @@ def cases_c10(tier, seed):
         pairs = [[1], [2], [3], [2, 2], [2, 3], [1, 3]]
         batches = [[], [2], [3, 2]]
     else:
-        pairs = [list(p) for r in (1, 2, 3) for p in itertools.product((1, 2, 3), repeat=r)]
-        batches = [[], [1], [2], [3], [2, 3], [3, 1], [2, 2]]
+        pairs = [list(p) for r in (1, 2) for p in itertools.product((1, 2, 3), repeat=r)] + [list(p) for p in itertools.product((1, 2), repeat=3)] + [[3, 2, 1]]
+        batches = [[], [1], [2], [3, 2], [2, 3]]
     cases = []
     for sr in srs:
         for T in durations:
             for pr in pairs:
-                if not quick and len(pr) == 3 and T > 8 and math.prod(pr) > 12:
-                    continue  # 3 pairs: keep the contraction table (sizes^3 per pair) small for long chains
+                if sr in ("min_mul", "or_and") and (len(pr) == 3 or T % 2 == 0):
+                    continue  # the two extra semirings of the thorough tier run on a reduced grid
                 for b in batches:
                     for td in (True, False):
                         cases.append(dict(kind="markov", sr=sr, duration=T, pairs=pr, batch=b, time_dep=td, lacks=None, param=None))
     # free real parameter; a step variable the transition does not mention
-    sub_pairs = [[2], [2, 3]] if quick else [[2], [3], [2, 3], [1, 2], [2, 2, 2]]
-    sub_batches = [[], [2]] if quick else [[], [2], [3, 2]]
-    for sr in srs:
-        if sr == "or_and":
-            params = [None]
-        else:
-            params = [None, "prod", "other"]
+    sub_pairs = [[2], [2, 3]] if quick else [[2], [2, 3], [2, 2, 2]]
+    sub_batches = [[], [2]]
+    for sr in FIVE:
+        params = [None, "prod", "other"]
         for T in durations:
             for pr in sub_pairs:
                 for b in sub_batches:
@@ -56,7 +53,9 @@ def cases_c10(tier, seed):
                                     continue  # already in the main grid
                                 if quick and param is not None and lacks is not None and (T > 5 or b):
                                     continue
-                                if quick and param is not None and T > 7:
+                                if param is not None and T > (7 if quick else 9):
+                                    continue
+                                if not quick and param is not None and lacks is not None and T > 6:
                                     continue
                                 cases.append(dict(kind="markov", sr=sr, duration=T, pairs=pr, batch=b, time_dep=td, lacks=lacks, param=param))
     # time-lagged models
@@ -64,18 +63,18 @@ def cases_c10(tier, seed):
     one = [[(2, l)] for l in lagsets] + [[(3, l)] for l in lagsets if l and max(l) <= 2] + [[(1, (1, 2))]]
     two = [[(2, (1,)), (2, (2,))], [(2, (1,)), (3, ())], [(2, ()), (2, (1, 2))], [(2, (1, 3)), (2, (2,))], [(3, (1,)), (2, (1,))], [(2, (2,)), (2, (2,))]]
     if not quick:
-        two += [[(2, a), (2, b)] for a in lagsets for b in lagsets if a <= b and _sb_width([(2, a), (2, b)]) <= 18]
+        two += [[(2, a), (2, b)] for a in lagsets for b in lagsets if a <= b and _sb_width([(2, a), (2, b)]) <= 16]
         two += [[(2, (1,)), (2, (1,)), (2, (2,))], [(2, (3,)), (2, ()), (2, (1,))]]
     sb_durations = durations
     for sr in srs:
         for T in sb_durations:
             for vs in one + two:
-                for gl in ([], [2]) if quick else ([], [2], [3, 2]):
+                for gl in ([], [2]) if quick else ([], [3]):
                     cases.append(dict(kind="sb", sr=sr, duration=T, vars=[(n, tuple(l)) for n, l in vs], globals=gl, num_periods=[1, 2, 3] if quick else [1, 2, 3, 4]))
     if not quick:
         # seeded random continuation: longer chains and random shapes
         rs = np.random.RandomState(seed + 1010)
-        for _ in range(1500):
+        for _ in range(800):
             pr = [int(x) for x in rs.randint(1, 4, size=rs.randint(1, 4))]
             cases.append(
                 dict(
@@ -99,10 +98,10 @@ def cases_c10(tier, seed):
         markov_functions=["sequential_sum_product", "naive_sequential_sum_product", "mixed_sequential_sum_product", "MarkovProduct eager / lazy+reinterpret / lazy+rename / eager-subs-into-lazy"],
         free_real_parameter="trans = tensor (prod_op | other op) Variable('w', Real), evaluated at w in {0.7, 1.9}; grid subset %s x %s" % (sub_pairs, sub_batches),
         lacking_step_variable="trans not mentioning p0 / c0 / last prev (subset grid)",
-        lag_models="%d models: one variable with every lag set over {1,2,3}, two/three variables; globals 0-%d; num_periods %s" % (len(one + two), 1 if quick else 2, "1..3" if quick else "1..4"),
+        lag_models="%d models: one variable with every lag set over {1,2,3}, two/three variables; globals 0-%d; num_periods %s" % (len(one + two), 1, "1..3" if quick else "1..4"),
         sarkka_bilmes_fold_precondition="explicit-fold oracle applies to models with at least one lag; lag-free transitions are checked against the plain product over time (documented degenerate behaviour)",
         nontrivial_rule="duration >= 2 and (some state size >= 2 | some lag present)",
-        random_continuation=0 if quick else 1500,
+        random_continuation=0 if quick else 800,
         exhaustive_subspaces="the whole stated grid is enumerated (the thorough tier adds a seeded random continuation on top)",
     )
     return _seeded(cases, seed), bounds, True
@@ -200,7 +199,7 @@ def cases_c08(tier, seed):
     for k in range(1, kmax_exh + 1):
         for pat in itertools.combinations_with_replacement(_subsets(V3), k):
             flat.append((V3, pat))
-    big = [(4, 16), (5, 16)] if quick else [(4, 150), (5, 150), (6, 100), (7, 60), (8, 60)]
+    big = [(4, 16), (5, 16)] if quick else [(4, 40), (5, 40), (6, 30), (7, 20), (8, 20)]
     for k, n in big:
         for _ in range(n):
             pat = tuple(tuple(v for v in V4 if rs.rand() < 0.45) for _ in range(k))
@@ -239,7 +238,7 @@ def cases_c08(tier, seed):
     for tname, (nl, nr, fn) in TEMPLATES.items():
         V = V2 if quick else V3
         combos = list(itertools.product(itertools.product(_subsets(V), repeat=nl), itertools.product(_subsets(V), repeat=nr)))
-        cap = 140 if quick else 1200
+        cap = 140 if quick else 500
         if len(combos) > cap:
             idx = sorted(rs.choice(len(combos), size=cap, replace=False))
             combos = [combos[i] for i in idx]
@@ -268,7 +267,7 @@ def cases_c08(tier, seed):
                     ntemp += 1
     # ---- random nested trees
     nrand = 0
-    for _ in range(200 if quick else 4000):
+    for _ in range(200 if quick else 2000):
         nl = int(rs.randint(2, 6 if quick else 9))
         V = V3 if rs.rand() < 0.6 else V4
         e = _random_expr(rs, nl, V)
@@ -318,8 +317,8 @@ def cases_c08(tier, seed):
         sizes="each variable 1-3 (seeded, P(1)=0.2)",
         routes=["eager", "reflect/lazy/normalize-built then eager reinterpret", "lazy/reflect/normalize-built then apply_optimizer", "lazy/reflect-built, reinterpret under unfold, then eager", "normalize idempotence (is)", "einsum / naive_einsum / naive_plated_einsum (flat, 3 backends)"],
         nested_templates={k: v[0] for k, v in TEMPLATES.items()},
-        nested_universe="2 variables, capped 140 patterns/template" if quick else "3 variables, capped 1200 patterns/template",
-        random_trees=200 if quick else 4000,
+        nested_universe="2 variables, capped 140 patterns/template" if quick else "3 variables, capped 500 patterns/template",
+        random_trees=200 if quick else 2000,
         parameter_operand="one operand is tensor (x) w / tensor (other op) w / the bare Variable w; evaluated at w in {0.7, 1.9}",
         einsum_equations="<= %d operands x %d symbols, every multiset of operand symbol-sets (every tuple for <= 2 operands) x every output subset (4 operands over 4 symbols: empty, full and 6 seeded subsets); symbol order seeded; backends numpy, numpy_log, numpy_map" % (kmax, len(syms)),
         counts=dict(flat=nflat, flat_param=npar, nested=ntemp, random=nrand, einsum=neq),
@@ -378,7 +377,7 @@ def cases_c09(tier, seed):
         nbig, big_shape, e_per_graph = 110, (4, 3, 2), 4
     else:
         exh = _graphs(3, V[:3], P[:2]) + [g for g in _graphs(4, V[:2], P[:2]) if len(g) == 4]
-        nbig, big_shape, e_per_graph = 1500, (5, 4, 3), 6
+        nbig, big_shape, e_per_graph = 700, (5, 4, 3), 5
     graphs = [(g, True) for g in exh]
     for _ in range(nbig):
         nf = int(rs.randint(3, big_shape[0] + 1))
@@ -585,7 +584,7 @@ def cases_c11(tier, seed):
     for k in range(1, kmax + 1):
         for pat in itertools.combinations_with_replacement(_subsets(V3), k):
             pats.append((V3, pat))
-    for k, n in [(4, 16)] if quick else [(5, 300)]:
+    for k, n in [(4, 16)] if quick else [(5, 120)]:
         for _ in range(n):
             pats.append((V4, tuple(tuple(v for v in V4 if rs.rand() < 0.45) for _ in range(k))))
     cases = []
@@ -609,7 +608,7 @@ def cases_c11(tier, seed):
                 sizes = _sizes_for(rs, V)
                 variants = [(None, False)]
                 u = rs.rand()
-                if u < (0.4 if quick else 0.9):
+                if u < (0.4 if quick else 0.6):
                     variants.append((["ren", "slice", "take", "cat"][rs.randint(4)], False))
                 if len(pat) >= 2 and rs.rand() < (0.15 if quick else 0.3):
                     variants.append((None, True))
@@ -623,7 +622,7 @@ def cases_c11(tier, seed):
                         ncount[tname] = ncount.get(tname, 0) + 1
     bounds = dict(
         semirings=["add_mul", "logaddexp_add"],
-        leaves="1..%d occurrences: every multiset of variable sets over 3 variables (<= %d occurrences) plus %s seeded patterns over 4 variables" % (kmax + 1, kmax, "16 four-occurrence" if quick else "300 five-occurrence"),
+        leaves="1..%d occurrences: every multiset of variable sets over 3 variables (<= %d occurrences) plus %s seeded patterns over 4 variables" % (kmax + 1, kmax, "16 four-occurrence" if quick else "120 five-occurrence"),
         templates=["flat product", "(o0 + o1) * rest", "nested reduction", "product + last"],
         reduced="every subset of the mentioned variables for flat (<= 3 occurrences), %d seeded subsets per pattern for the other templates" % (2 if quick else 4),
         sizes="1-3 per variable (seeded)",
